@@ -8,6 +8,10 @@ level `n` (no bound on K) and all well-formed operands; carries and borrows are 
 -/
 import GivaroModel.Lemmas.RecIntConv
 import GivaroModel.Lemmas.RecIntMixed
+import GivaroModel.Lemmas.RecIntBezout
+import GivaroModel.Lemmas.RecIntSignedLemmas
+import GivaroModel.Lemmas.RecIntWords
+import GivaroModel.Lemmas.RecIntSignedMod
 namespace Givaro.Props.C06
 open Givaro.Model.RecInt
 
@@ -309,6 +313,15 @@ theorem left_shift_wide_exact {n : Nat} (a : RU n) (d : Nat) (ha : WF a) :
 /-- `|`, `|=`: bitwise or of the values -/
 theorem or_exact {n : Nat} (x y : RU n) (hx : WF x) (hy : WF y) : WF (lor x y) ∧ val (lor x y) = val x ||| val y := lor_ok x y hx hy
 
+/-- `&`, `&=`: bitwise and of the values (limb-wise code, every size) -/
+theorem and_exact {n : Nat} (x y : RU n) (hx : WF x) (hy : WF y) : WF (land x y) ∧ val (land x y) = val x &&& val y := land_ok x y hx hy
+
+/-- `^`, `^=`: bitwise exclusive or of the values -/
+theorem xor_exact {n : Nat} (x y : RU n) (hx : WF x) (hy : WF y) : WF (lxor x y) ∧ val (lxor x y) = val x ^^^ val y := lxor_ok x y hx hy
+
+example : ∃ x y : RU 1, WF x ∧ WF y ∧ val (land x y) ≠ 0 ∧ val (lxor x (zero 1)) ≠ 0 :=
+  ⟨ones 1, ones 1, by simp [ones, WF, B64], by simp [ones, WF, B64], by decide, by decide⟩
+
 example : ∃ (ah al b : RU 1), WF ah ∧ WF al ∧ WF b ∧ Bn 1 ≤ 2 * val b ∧ val ah < val b :=
   ⟨zero 1, zero 1, ones 1, by simp [zero, WF, B64], by simp [zero, WF, B64], by simp [ones, WF, B64],
    by simp [ones, val, Bn, bits, B64], by simp [ones, zero, val, Bn, bits, B64]⟩
@@ -383,9 +396,194 @@ theorem exp_mod_word_exact (t : Nat) {n : Nat} (b : RU n) (c : Nat) (m : RU n) (
 theorem arazi_qi_exact (t : Nat) {n : Nat} (a : RU n) (ha : WF a) (hodd : val a % 2 = 1) :
     WF (arazi_qi t a) ∧ (val (arazi_qi t a) * val a) % Bn n = 1 := arazi_qi_ok t a ha hodd
 
+/-- `bezout_mod(x, y, c, d)` (ruinvmod.h) for **all** non-zero `c`, `d`, coprime or not: the two cofactor tracks, reduced modulo `d`
+    resp. `c` at every step, satisfy `x·c ≡ gcd(c, d) (mod d)` and `y·d ≡ gcd(c, d) (mod c)` with `0 ≤ x < d`, `0 ≤ y ≤ c`
+    (`y = c` only when `c = d = 1`, where the code returns `y = 1`).  The code does not compute an identity modulo `2^(2^K)`:
+    it computes the two modular inverses-up-to-the-gcd the header documents; `c = 0` with `d ≠ 0` divides by zero (outside the contract). -/
+theorem bezout_mod_exact (t : Nat) {n : Nat} (c d : RU n) (hc : WF c) (hd : WF d) (hcne : val c ≠ 0) (hdne : val d ≠ 0) :
+    WF (bezout_mod t c d).1 ∧ WF (bezout_mod t c d).2 ∧ val (bezout_mod t c d).1 < val d ∧ val (bezout_mod t c d).2 ≤ val c ∧
+    (val (bezout_mod t c d).1 * val c) % val d = Nat.gcd (val c) (val d) % val d ∧
+    (val (bezout_mod t c d).2 * val d) % val c = Nat.gcd (val c) (val d) % val c :=
+  bezout_mod_ok t c d hc hd hcne hdne
+
+/-- the documented case: for relatively prime `c`, `d`: `x·c = 1 mod d` and `y·d = 1 mod c` -/
+theorem bezout_mod_coprime (t : Nat) {n : Nat} (c d : RU n) (hc : WF c) (hd : WF d) (hcne : val c ≠ 0) (hdne : val d ≠ 0)
+    (hcop : Nat.gcd (val c) (val d) = 1) :
+    (val (bezout_mod t c d).1 * val c) % val d = 1 % val d ∧ (val (bezout_mod t c d).2 * val d) % val c = 1 % val c := by
+  have h := bezout_mod_ok t c d hc hd hcne hdne
+  rw [hcop] at h
+  exact ⟨h.2.2.2.2.1, h.2.2.2.2.2⟩
+
+example : ∃ (c d : RU 1), WF c ∧ WF d ∧ val c ≠ 0 ∧ val d ≠ 0 ∧ Nat.gcd (val c) (val d) = 1 :=
+  ⟨ofLimb 1 1, ones 1, by simp [ofLimb, zero, WF, B64], by simp [ones, WF, B64], by decide, by decide, by decide⟩
+
 example : ∃ (b c : RU 1), WF b ∧ WF c ∧ val c ≠ 0 ∧ Nat.gcd (val b) (val c) = 1 ∧ val c % 2 = 1 :=
   ⟨zero 1, ofLimb 1 1, by simp [zero, WF, B64], by simp [ofLimb, zero, WF, B64], by simp [ofLimb, zero, val],
    by simp [ofLimb, zero, val], by simp [ofLimb, zero, val]⟩
+
+/-! ### `rint<K>` (radd.h, rsub.h, rmul.h, rdiv.h, rcmp.h, rfiddling.h, rrint.h): the signed wrappers
+    A `rint<K>` is its field `Value : ruint<K>`; `sval` is the two's-complement reading of the image (what `rint_to_mpz` returns,
+    `convert_roundtrip_signed`), `swrap n v` the representative of `v` modulo `2^bits` in `[-2^(bits-1), 2^(bits-1))`.
+    Every theorem is for every size and all operands. -/
+/-- `swrap` is the two's-complement wrap: congruent to its argument, in the signed range, and the identity on that range -/
+theorem swrap_exact (n : Nat) (v : Int) :
+    swrap n v % (Bn n : Int) = v % Bn n ∧ -(Bn n : Int) ≤ 2 * swrap n v ∧ 2 * swrap n v < Bn n ∧
+    (-(Bn n : Int) ≤ 2 * v → 2 * v < Bn n → swrap n v = v) := by
+  have hB : (0 : Int) < Bn n := by exact_mod_cast Bn_pos n
+  have h0 := Int.emod_nonneg v (ne_of_gt hB)
+  have h1 := Int.emod_lt_of_pos v hB
+  refine ⟨?_, ?_, ?_, swrap_id n v⟩
+  · unfold swrap; split
+    · exact Int.emod_emod_of_dvd _ (Int.dvd_refl _)
+    · rw [show v % (Bn n : Int) - Bn n = v % (Bn n : Int) + (-1) * (Bn n : Int) by ring, Int.add_mul_emod_self_right]
+      exact Int.emod_emod_of_dvd _ (Int.dvd_refl _)
+  · unfold swrap; split <;> omega
+  · unfold swrap; split <;> omega
+
+/-- `add`, `+`, `+=`; `sub`, `-`, `-=`; `mul`, `*`, `*=`; `addmul`; unary `-`, `neg`: the signed operation on the values, wrapped -/
+theorem rint_ring_ops_exact (t : Nat) {n : Nat} (a b c : RU n) (ha : WF a) (hb : WF b) (hc : WF c) :
+    sval (s_add b c) = swrap n (sval b + sval c) ∧ sval (s_sub b c) = swrap n (sval b - sval c) ∧
+    sval (s_mul t b c) = swrap n (sval b * sval c) ∧ sval (s_addmul t a b c) = swrap n (sval a + sval b * sval c) ∧
+    sval (s_neg c) = swrap n (-sval c) ∧
+    WF (s_add b c) ∧ WF (s_sub b c) ∧ WF (s_mul t b c) ∧ WF (s_addmul t a b c) ∧ WF (s_neg c) :=
+  ⟨(s_add_ok b c hb hc).2, (s_sub_ok b c hb hc).2, (s_mul_ok t b c hb hc).2, (s_addmul_ok t a b c ha hb hc).2, (s_neg_ok c hc).2,
+   (s_add_ok b c hb hc).1, (s_sub_ok b c hb hc).1, (s_mul_ok t b c hb hc).1, (s_addmul_ok t a b c ha hb hc).1, (s_neg_ok c hc).1⟩
+
+/-- `~c` on `rint`: `-c - 1` exactly (never wraps) -/
+theorem rint_not_exact {n : Nat} (c : RU n) (hc : WF c) : WF (s_not c) ∧ sval (s_not c) = -sval c - 1 := s_not_ok c hc
+
+/-- `cmp(a, b)` on `rint` (sign test first, then the unsigned comparison of the images) is exactly -1, 0, +1 by the order of the
+    signed values, so `<, <=, >, >=, ==, !=` are exact -/
+theorem rint_cmp_exact {n : Nat} (a b : RU n) (ha : WF a) (hb : WF b) :
+    (s_cmp a b = -1 ∧ sval a < sval b) ∨ (s_cmp a b = 0 ∧ sval a = sval b) ∨ (s_cmp a b = 1 ∧ sval a > sval b) := s_cmp_ok a b ha hb
+
+/-- `lmul(rint<K+1>&, b, c)` (four sign branches on the magnitudes, `MIN` included): the exact product, no wrap -/
+theorem rint_lmul_exact (t : Nat) {n : Nat} (b c : RU n) (hb : WF b) (hc : WF c) :
+    WF (s_lmul t b c) ∧ sval (s_lmul t b c) = sval b * sval c := s_lmul_ok t b c hb hc
+
+/-- `lsquare(rint<K+1>&, b)`: the exact square -/
+theorem rint_lsquare_exact (t : Nat) {n : Nat} (b : RU n) (hb : WF b) :
+    WF (s_lsquare t b) ∧ sval (s_lsquare t b) = sval b * sval b := s_lsquare_ok t b hb
+
+/-- the widening constructor `rint<K+1>(const rint<K>&)` is sign extension: the value is unchanged -/
+theorem rint_extend_exact {n : Nat} (a : RU n) (ha : WF a) : WF (s_ext a) ∧ sval (s_ext a) = sval a := s_ext_ok a ha
+
+/-- `div_q`, `/`, `/=` on `rint` for every divisor `b ≠ 0`: the code's convention is the quotient **truncated towards zero**
+    (C++ `/`, `mpz_tdiv_q`) of the signed values; the result is wrapped, which matters only for `MIN / -1` (= `MIN`) -/
+theorem rint_divq_exact (t : Nat) {n : Nat} (a b : RU n) (ha : WF a) (hb : WF b) (hne : sval b ≠ 0) :
+    WF (s_divq t a b) ∧ sval (s_divq t a b) = swrap n (Int.tdiv (sval a) (sval b)) := s_divq_ok t a b ha hb hne
+
+/-- `div_r`, `%`, `%=` on `rint` for a positive divisor (the code asserts `b > 1`; a negative divisor is outside its contract: its
+    image is used as an unsigned number): the remainder of the truncated division (sign of the dividend, `mpz_tdiv_r`), never wrapped -/
+theorem rint_divr_exact (t : Nat) {n : Nat} (a b : RU n) (ha : WF a) (hb : WF b) (hpos : 0 < sval b) :
+    WF (s_divr t a b) ∧ sval (s_divr t a b) = Int.tmod (sval a) (sval b) := s_divr_ok t a b ha hb hpos
+
+/-- hence for a positive divisor `a = (a / b)·b + a % b` on the signed values (quotient wrapped only in the excluded `MIN / -1`) -/
+theorem rint_div_identity (t : Nat) {n : Nat} (a b : RU n) (ha : WF a) (hb : WF b) (hpos : 0 < sval b) :
+    sval a = Int.tdiv (sval a) (sval b) * sval b + sval (s_divr t a b) := by
+  rw [(s_divr_ok t a b ha hb hpos).2, Int.mul_comm]; exact (Int.mul_tdiv_add_tmod _ _).symm
+
+/-- `<<`, `<<=` on `rint` for every count: `b·2^c` wrapped -/
+theorem rint_shl_exact {n : Nat} (b : RU n) (d : Nat) (hb : WF b) : WF (s_shl b d) ∧ sval (s_shl b d) = swrap n (sval b * 2 ^ d) :=
+  s_shl_ok b d hb
+
+/-- `>>`, `>>=` on `rint` for every count: the arithmetic shift `⌊b / 2^c⌋` (floor, also for negative `b`: `~(~b >> c)`) -/
+theorem rint_shr_exact {n : Nat} (b : RU n) (d : Nat) (hb : WF b) : WF (s_shr b d) ∧ sval (s_shr b d) = sval b / 2 ^ d :=
+  s_shr_ok b d hb
+
+-- non-vacuity: negative and positive well-formed operands exist (−1 and 1 at 128 bits)
+example : ∃ a b : RU 1, WF a ∧ WF b ∧ sval a < 0 ∧ 0 < sval b ∧ sval b ≠ 0 :=
+  ⟨ones 1, ofLimb 1 1, by simp [ones, WF, B64], by simp [ofLimb, zero, WF, B64], by decide, by decide, by decide⟩
+
+/-- `mod_n(rint& a, const rint& n)` for a positive modulus: the non-negative residue `a mod n` (floor convention, `mpz_mod`), also for
+    negative `a` (`n - ((-a) mod n)`, or 0) -/
+theorem rint_modn_exact (t : Nat) {n : Nat} (a m : RU n) (ha : WF a) (hm : WF m) (hpos : 0 < sval m) :
+    WF (s_modn t a m) ∧ sval (s_modn t a m) = sval a % sval m := s_modn_ok t a m ha hm hpos
+
+/-- `mod_n(rint<K>& a, const rint<K+1>& b, const rint<K>& c)` (double-width argument) for a positive modulus: `b mod c ≥ 0` -/
+theorem rint_modn_wide_exact (t : Nat) {n : Nat} (b : RU (n+1)) (c : RU n) (hb : WF b) (hc : WF c) (hpos : 0 < sval c) :
+    WF (s_modn2 t b c) ∧ sval (s_modn2 t b c) = sval b % sval c := s_modn2_ok t b c hb hc hpos
+
+/-- `inv_mod(rint& a, b, c)` for a positive modulus `c` and every `b`, negative ones included (reduced to `c - ((-b) mod c)` first), that is
+    coprime to `c`: `0 ≤ a < c` and `c ∣ a·b - 1` -/
+theorem rint_invmod_exact (t : Nat) {n : Nat} (b c : RU n) (hb : WF b) (hc : WF c) (hpos : 0 < sval c)
+    (hcop : Nat.gcd (sval b).natAbs (sval c).natAbs = 1) :
+    WF (s_invmod t b c) ∧ 0 ≤ sval (s_invmod t b c) ∧ sval (s_invmod t b c) < sval c ∧
+    (sval c : Int) ∣ sval (s_invmod t b c) * sval b - 1 := s_invmod_ok t b c hb hc hpos hcop
+
+example : ∃ b c : RU 1, WF b ∧ WF c ∧ 0 < sval c ∧ sval b < 0 ∧ Nat.gcd (sval b).natAbs (sval c).natAbs = 1 :=
+  ⟨ones 1, ofLimb 1 1, by simp [ones, WF, B64], by simp [ofLimb, zero, WF, B64], by decide, by decide, by decide⟩
+
+/-! ### conversions between `ruint<K>` / `rint<K>` and the built-in types (ruruint.h constructors and casts, rrint.h) -/
+/-- `ruint<K>(T b)` for every value of every **signed** built-in type (`Low(b < 0 ? -(b+1) : b)`, complemented when `b < 0`): the image
+    `b mod 2^bits`; hence `rint<K>(T b)` (`Value(b)`) has the value `b` exactly -/
+theorem from_signed_word_exact (n : Nat) (w : Int) (h0 : -(2 : Int) ^ 63 ≤ w) (h1 : w < (2 : Int) ^ 63) :
+    WF (u_of_signed n w) ∧ (val (u_of_signed n w) : Int) = w % Bn n ∧ sval (u_of_signed n w) = w := by
+  obtain ⟨hw, he⟩ := u_of_signed_ok n w (by simp only [B64]; omega) (by simp only [B64]; omega)
+  refine ⟨hw, he, ?_⟩
+  have hle : (B64 : Int) ≤ Bn n := by exact_mod_cast B64_le_Bn n
+  rw [sval_eq_swrap _ _ he]
+  exact swrap_id n w (by simp only [B64] at hle; omega) (by simp only [B64] at hle; omega)
+
+/-- `ruint<K>(T b)` for every value of every **unsigned** built-in type (`Low(b)`, the rest zero): the value `b` -/
+theorem from_unsigned_word_exact (n : Nat) (w : Nat) (h : w < B64) : WF (ofLimb n w) ∧ val (ofLimb n w) = w := ofLimb_ok n w h
+
+/-- the casts `(uint64_t)a`, `(int64_t)a`, `(uint32_t)a`, `(int32_t)a`, `(bool)a` (every `operator T()` returns `T(Low)` … `T(Value)`):
+    the value reduced modulo `2^64` resp. `2^32`, read in two's complement for the signed types; `bool` is `a ≠ 0` -/
+theorem to_word_exact {n : Nat} (a : RU n) (ha : WF a) :
+    to_u64 a = val a % 2 ^ 64 ∧
+    to_s64 a = (if val a % 2 ^ 64 < 2 ^ 63 then ((val a % 2 ^ 64 : Nat) : Int) else ((val a % 2 ^ 64 : Nat) : Int) - 2 ^ 64) ∧
+    to_u32 a = val a % 2 ^ 32 ∧
+    to_s32 a = (if val a % 2 ^ 32 < 2 ^ 31 then ((val a % 2 ^ 32 : Nat) : Int) else ((val a % 2 ^ 32 : Nat) : Int) - 2 ^ 32) ∧
+    (to_bool a = true ↔ val a ≠ 0) := by
+  have hl := ls_limb_ok a ha
+  have e32 : val a % B64 % 4294967296 = val a % 4294967296 := Nat.mod_mod_of_dvd _ (by simp only [B64]; decide)
+  refine ⟨?_, ?_, ?_, ?_, to_bool_ok a⟩
+  · unfold to_u64; rw [hl]; rfl
+  · unfold to_s64; rw [hl]; rfl
+  · unfold to_u32; rw [hl, e32]; rfl
+  · unfold to_s32; rw [hl, e32]; rfl
+
+/-- word round trip: a signed 64-bit value survives `rint<K>(w)` / `ruint<K>(w)` followed by `(int64_t)` at every size -/
+theorem word_roundtrip (n : Nat) (w : Int) (h0 : -(2 : Int) ^ 63 ≤ w) (h1 : w < (2 : Int) ^ 63) : to_s64 (u_of_signed n w) = w := by
+  obtain ⟨hw, he, -⟩ := from_signed_word_exact n w h0 h1
+  obtain ⟨k, hk⟩ := B64_dvd_Bn n
+  have hm : ((val (u_of_signed n w) % B64 : Nat) : Int) = w % (B64 : Int) := by
+    rw [Int.natCast_mod, he, hk, Nat.cast_mul]; exact Int.emod_emod_of_dvd _ (Dvd.intro _ rfl)
+  unfold to_s64
+  rw [ls_limb_ok _ hw]
+  have hlt := Nat.mod_lt (val (u_of_signed n w)) (show 0 < B64 by decide)
+  by_cases hx : val (u_of_signed n w) % B64 < 9223372036854775808
+  · rw [if_pos hx]; simp only [B64] at hm hlt hx ⊢; omega
+  · rw [if_neg hx]; simp only [B64] at hm hlt hx ⊢; omega
+
+/-- `ruint<K>(double b)` for an integer-valued `b` with `|b| < 2^64` (magnitude truncated into the low limb, negated for `b < 0`;
+    at the limb level `static_cast<limb>(b)`, which C++ defines only for `b ≥ 0`): the image `b mod 2^bits`, so `rint<K>(double)` is exact
+    on `|b| < 2^63` -/
+theorem from_double_exact (n : Nat) (d : Int) (h0 : -(2 : Int) ^ 64 < d) (h1 : d < (2 : Int) ^ 64) :
+    WF (u_of_double n d) ∧ (val (u_of_double n d) : Int) = d % Bn n :=
+  u_of_double_ok n d (by simp only [B64]; omega) (by simp only [B64]; omega)
+
+/-- `(double)a`: the code converts **only the least significant limb** (`(double)(Low)` recursively), with the hardware rounding of
+    `uint64_t → double` (nearest, ties to even — `dbl_of_u64_rounding`); it is exact whenever `a < 2^53`, and for `rint` whenever `|a| < 2^53`.
+    For `a ≥ 2^64` the result is the double of `a mod 2^64`, not of `a` (stated, not hidden: `to_double_is_low_limb`). -/
+theorem to_double_exact {n : Nat} (a : RU n) (ha : WF a) :
+    (val a < 2 ^ 53 → u_to_double a = val a) ∧ (-(2 : Int) ^ 53 < sval a → sval a < (2 : Int) ^ 53 → s_to_double a = sval a) :=
+  ⟨fun h => u_to_double_exact a ha (by omega), fun h0 h1 => s_to_double_exact a ha (by omega) (by omega)⟩
+
+theorem to_double_is_low_limb {n : Nat} (a : RU n) (ha : WF a) : u_to_double a = dbl_of_u64 (val a % 2 ^ 64) := u_to_double_ok a ha
+
+/-- the rounding of `(double)(uint64_t v)` for `v ≥ 2^53`: with `p = 2^(⌊log2 v⌋ - 52)` the spacing of doubles at `v`, the result is a
+    multiple of `p` within `p/2` of `v`, and in a tie the even multiple -/
+theorem dbl_of_u64_rounding (v : Nat) (h : 2 ^ 53 ≤ v) :
+    dbl_of_u64 v % 2 ^ (Nat.log2 v - 52) = 0 ∧ 2 * dbl_of_u64 v ≤ 2 * v + 2 ^ (Nat.log2 v - 52) ∧
+    2 * v ≤ 2 * dbl_of_u64 v + 2 ^ (Nat.log2 v - 52) ∧
+    ((2 * dbl_of_u64 v = 2 * v + 2 ^ (Nat.log2 v - 52) ∨ 2 * v = 2 * dbl_of_u64 v + 2 ^ (Nat.log2 v - 52)) →
+      (dbl_of_u64 v / 2 ^ (Nat.log2 v - 52)) % 2 = 0) := dbl_of_u64_rne v (by omega)
+
+example : ∃ w : Int, -(2 : Int) ^ 63 ≤ w ∧ w < (2 : Int) ^ 63 ∧ w < 0 := ⟨-9223372036854775808, by decide, by decide, by decide⟩
+example : ∃ a : RU 1, WF a ∧ ¬ val a < 2 ^ 53 ∧ -(2 : Int) ^ 53 < sval a ∧ sval a < (2 : Int) ^ 53 := ⟨ones 1, by simp [ones, WF, B64], by decide, by decide, by decide⟩
+example : ∃ v : Nat, 2 ^ 53 ≤ v ∧ dbl_of_u64 v ≠ v := ⟨2 ^ 53 + 1, by decide, by decide⟩
 
 /-! ### mixed operands: recursive integer ⊗ built-in scalar -/
 /-- For every size, every well-formed `a` and **every value `w` of every built-in integral type** (`|w| < 2^64` covers u8 … s64 and
